@@ -610,6 +610,21 @@ pub fn run(ctx: &Ctx) -> ! {
             let b = std::thread::Builder::new().stack_size(16 << 20).spawn(move || run_trace(seed)).unwrap().join().unwrap_or_default();
             let s = gen(seed);
             let desc = json!({"scenario_seed": seed, "scenario": format!("{s:?}")});
+            // a second execution on the SAME thread: state that outlives a Sim in a
+            // thread-local must not influence the next simulation on that thread
+            let a2 = run_trace(seed);
+            if a2 != a {
+                let i = a.iter().zip(a2.iter()).position(|(x, y)| x != y).unwrap_or(a.len().min(a2.len()));
+                let site = a.get(i).map(|l| l.split(' ').take(3).collect::<Vec<_>>().join(" ")).unwrap_or_default();
+                let fam = if site.contains("uring") { "io_uring" } else if site.contains("select") { "select" } else if site.starts_with("T|") { "wire" } else { "program" };
+                out.violate(
+                    "same-thread-rerun-divergence",
+                    format!("C01|same-thread-rerun-divergence|{fam}"),
+                    format!("re-running the scenario on the same OS thread differs at trace line {i}: {:?} vs {:?}", a.get(i).map(|l| &l[..l.len().min(200)]), a2.get(i).map(|l| &l[..l.len().min(200)])),
+                    json!({"scenario_seed": seed, "scenario": format!("{:?}", gen(seed))}),
+                );
+            }
+            out.count("same_thread_reruns", 1);
             if a != b {
                 let i = a.iter().zip(b.iter()).position(|(x, y)| x != y).unwrap_or(a.len().min(b.len()));
                 let site = a.get(i).map(|l| l.split(' ').take(3).collect::<Vec<_>>().join(" ")).unwrap_or_default();
@@ -691,7 +706,7 @@ pub fn run(ctx: &Ctx) -> ! {
             }
         }
     }
-    report.extra.insert("executions_per_scenario".into(), json!(4));
+    report.extra.insert("executions_per_scenario".into(), json!(5));
     report.extra.insert("child_process_executions_compared".into(), json!(child_runs));
     if child_runs == 0 {
         report.harness_errors.push("no child process execution could be compared".into());
@@ -702,7 +717,7 @@ pub fn run(ctx: &Ctx) -> ! {
 fn fin() -> Finish<'static> {
     Finish {
         level: "exploration",
-        rule: "seeded scenarios: builder knobs (tick, latency range + curve, fail/repair rate, random order, capacities, ip version, epoch, fs sync / io-error / short-read / corruption probabilities, fs latency, page cache), 1-5 hosts each running a seeded mix of program families (TCP echo with split halves, UDP unicast+broadcast+multicast, tokio select/spawn/timeout/interval, fs std+tokio shims with read_dir over >=8 entries, io_uring batches), controller script with crash/bounce/partition/one-way/hold/release; each scenario executed 2x in-process (two OS threads) + 2x in fresh child processes with different environment sizes; complete traces compared; non-trivial = >=50 wire events or >=20 fs/io_uring events and at least one random knob active; distinct = trace digest",
+        rule: "seeded scenarios: builder knobs (tick, latency range + curve, fail/repair rate, random order, capacities, ip version, epoch, fs sync / io-error / short-read / corruption probabilities, fs latency, page cache), 1-5 hosts each running a seeded mix of program families (TCP echo with split halves, UDP unicast+broadcast+multicast, tokio select/spawn/timeout/interval, fs std+tokio shims with read_dir over >=8 entries, io_uring batches), controller script with crash/bounce/partition/one-way/hold/release; each scenario executed 3x in-process (twice on one OS thread, once on another) + 2x in fresh child processes with different environment sizes; complete traces compared; non-trivial = >=50 wire events or >=20 fs/io_uring events and at least one random knob active; distinct = trace digest",
         assumptions: vec![
             "Builder::epoch and Builder::rng_seed are always set (their defaults are wall clock / OS entropy by design)".into(),
             "the harness's own programs are deterministic functions of the scenario seed".into(),
